@@ -35,7 +35,7 @@ StartsWithB(v) == v # <<>> /\ v[1] = B
 
 Eof(inp, pos) == pos >= Len(inp)        \* positions are 0-based offsets
 
-RECURSIVE Eval(_, _, _), Many(_, _, _, _, _), Delim(_, _, _, _, _, _, _)
+RECURSIVE Eval(_, _, _), Many(_, _, _, _, _), Delim(_, _, _, _, _, _, _), ManyCtx(_, _, _, _, _)
 
 \* repetition: the maximal run of successes of p starting at pos
 \*   acc: output so far; n: number of successes so far
@@ -46,6 +46,14 @@ Many(p, inp, pos, acc, n) ==
      ELSE Many(p, inp, r.pos, acc \o r.v, n + 1))
   ELSE IF IsFatal(r) THEN r
   ELSE [c |-> "end", v |-> acc, e |-> r.e, pos |-> pos, n |-> n]
+
+\* context-carrying repetition over the dependent element (see the many_ctx terms)
+ManyCtx(inp, pos, acc, n, fatalb) ==
+  IF Eof(inp, pos) THEN [c |-> "end", v |-> acc, e |-> 0, pos |-> pos, n |-> n]
+  ELSE LET x == inp[pos + 1] IN
+       IF fatalb /\ x = B THEN Fatal(9, pos + 1)
+       ELSE IF n > 0 /\ acc[Len(acc)] = x THEN [c |-> "end", v |-> acc, e |-> 0, pos |-> pos, n |-> n]
+       ELSE ManyCtx(inp, pos + 1, Append(acc, x), n + 1, fatalb)
 
 \* delimited list: elements p separated by d.  missing: elements may be absent
 \*   last: "nothing" | "value" | "delim"
@@ -108,6 +116,15 @@ Eval(t, inp, pos) ==
          LET m == Many(t.p, inp, pos, <<>>, 0) IN
          IF m.c = "end" THEN
            (IF m.n = 0 THEN (IF t.op = "many0" THEN Ok(<<>>, pos) ELSE Soft(m.e, pos))
+            ELSE Ok(m.v, m.pos))
+         ELSE m
+    \* a run of elements, each of which knows the one before it (its context): here an element is one character that
+    \* must differ from the previous element; the first element knows the empty context.  "_fatal": the character b
+    \* is a fatal error of the element (after consuming it)
+    [] t.op \in {"many_ctx0", "many_ctx1", "many_ctx0_fatal"} ->
+         LET m == ManyCtx(inp, pos, <<>>, 0, t.op = "many_ctx0_fatal") IN
+         IF m.c = "end" THEN
+           (IF m.n = 0 THEN (IF t.op = "many_ctx1" THEN Soft(0, pos) ELSE Ok(<<>>, pos))
             ELSE Ok(m.v, m.pos))
          ELSE m
     [] t.op \in {"and", "and_left", "and_right"} ->
